@@ -3,6 +3,7 @@
 Document = dict(pageH, ltr, root, area) ; box = dict(kind='para'|'block', id, st, n, lineH, kids, calls)
   calls  = [dict(line, fid, m, h, policy)]   in call order (sorted by line; several per line allowed)
   area   = dict(mt, mb, pt, pb, bt, bb, maxH)   the `@page { @footnote { … } }` box
+  named  = {page name: area}   optional: `@page <name> { @footnote { … } }` rules (each gives every property)
 
 A footnote is `<span style="float:footnote;footnote-display:block">` holding `m` lines of height `h`.
 The real layout is run through `layout_document` (keeping the LayoutContext) and canonicalised to the
@@ -38,7 +39,16 @@ def box_wire(box, inherited_page=''):
 
 
 def doc_line(doc):
+    named = doc.get('named') or {}
+    if named:
+        return sx.line('pmfoot', doc['pageH'], doc['ltr'], area_wire(doc['area']),
+                       [[name, area_wire(named[name])] for name in sorted(named)], box_wire(doc['root']))
     return sx.line('pmfoot', doc['pageH'], doc['ltr'], area_wire(doc['area']), box_wire(doc['root']))
+
+
+def area_for(doc, name):
+    """The `@footnote` style of a page of the given name ('' / '-' = unnamed)."""
+    return (doc.get('named') or {}).get('' if name == '-' else name, doc['area'])
 
 
 px = pm.px
@@ -64,12 +74,14 @@ def box_html(box):
     return f'<div id="n{box["id"]}" style="{pm.css_of(box["st"], "block")}">{inner}</div>'
 
 
-def area_css(area):
+def area_css(area, full=False):
     parts = [f'margin:{px(area["mt"])} 0 {px(area["mb"])} 0',
              f'padding:{px(area["pt"])} 0 {px(area["pb"])} 0',
              f'border-style:solid;border-color:black;border-width:{px(area["bt"])} 0 {px(area["bb"])} 0']
     if area['maxH'] != 'inf':
         parts.append(f'max-height:{px(area["maxH"])}')
+    elif full:
+        parts.append('max-height:none')
     return ';'.join(parts)
 
 
@@ -81,6 +93,8 @@ def doc_html(doc):
     return (
         f'<html id="n{root["id"]}" style="direction:{direction};{pm.css_of(root["st"], "block")}"><head><style>'
         f'@page{{size:200px {px(doc["pageH"])};margin:0;@footnote{{{area_css(doc["area"])}}}}}'
+        + ''.join(f'@page {name}{{@footnote{{{area_css(area, True)}}}}}'
+                  for name, area in sorted((doc.get('named') or {}).items())) +
         '::footnote-call{content:"c";vertical-align:baseline;font-size:inherit;line-height:inherit}'
         '::footnote-marker{content:none}'
         '</style></head>'
@@ -246,6 +260,18 @@ def gen_doc(rng, size=None, plain=None):
     elif rng.random() < 0.3:
         area['maxH'] = Fraction(rng.choice([1, 2, 2, 3, 4])) * line_h + rng.choice([0, 0, line_h / 2])
     doc['area'] = area
+    names = sorted({b['st']['page'] for b in all_boxes(doc['root']) if b['st']['page']})
+    if names and rng.random() < 0.4:
+        # `@page <name> { @footnote { … } }`: a footnote postponed to a page of another name lands in another area
+        doc['named'] = {}
+        for name in names:
+            if rng.random() < 0.75:
+                other = default_area(mt=Fraction(rng.choice([0, 2, 4, 6, 10])), pt=Fraction(rng.choice([0, 0, 2, 4])),
+                                     bt=Fraction(rng.choice([0, 0, 1])), mb=Fraction(rng.choice([0, 0, 2])),
+                                     pb=Fraction(rng.choice([0, 0, 2])), bb=Fraction(rng.choice([0, 0, 1])))
+                if rng.random() < 0.4:
+                    other['maxH'] = Fraction(rng.choice([1, 2, 3])) * line_h + rng.choice([0, line_h / 2])
+                doc['named'][name] = other
     if plain or not paras:
         return doc
 
@@ -273,6 +299,103 @@ def gen_doc(rng, size=None, plain=None):
     return doc
 
 
+def _para(ident, n, calls=(), line_h=10, **style):
+    return dict(kind='para', id=ident, n=n, lineH=Fraction(line_h), st=pm.default_style(**style), kids=[],
+                calls=[dict(c) for c in calls])
+
+
+def _call(line, fid, m, h=10, policy='auto'):
+    return dict(line=line, fid=fid, m=m, h=Fraction(h), policy=policy)
+
+
+def _doc(page_h, kids, **area):
+    body = dict(kind='block', id=901, st=pm.default_style(), kids=list(kids))
+    root = dict(kind='block', id=900, st=pm.default_style(isRoot=True), kids=[body])
+    return dict(pageH=Fraction(page_h), ltr=True, root=root,
+                area=default_area(**{k: (v if v == 'inf' else Fraction(v)) for k, v in area.items()}))
+
+
+def family_docs(thorough=False):
+    """Deterministic family (no random choice): small documents around each branch of the footnote code, so that a
+    regression there is met whatever the seed.  [(name, doc)]; the quick tier takes a fixed third of it."""
+    out = []
+    # A. one paragraph of 5 lines, one call: every policy x where the call is x how tall the footnote is x page height
+    #    (fits / postponed alone / takes its line or block with it / taller than the page), alone or after a paragraph
+    for policy in POLICIES:
+        for line in (0, 2, 4):
+            for m in (1, 3, 6):
+                for page_h in (35, 46):
+                    for before in (0, 2):
+                        kids = ([_para(2, before)] if before else []) + [_para(1, 5, [_call(line, 1, m, 10, policy)])]
+                        out.append((f'one-{policy}-l{line}-m{m}-H{page_h}-b{before}', _doc(page_h, kids)))
+    # B. several footnotes postponed at once to a page whose area (max-height) cannot hold them all: the reported list
+    #    is placed one by one by make_page and cut again (page.py, the `reported_footnotes[i:]` slice)
+    for count in (2, 3, 4):
+        for max_h in (15, 20, 30, 45):
+            for m in (1, 2):
+                calls = [_call(2, f + 1, m, 10) for f in range(count)]
+                out.append((f'reported-{count}x{m}-max{max_h}',
+                            _doc(40, [_para(1, 3, calls), _para(2, 4)], maxH=max_h)))
+                out.append((f'reported-tail-{count}x{m}-max{max_h}',
+                            _doc(40, [_para(1, 6, [dict(c, line=3) for c in calls])], maxH=max_h, mt=2)))
+    # C. two calls on one line, the second with another policy; the first one overflows (everything after is reported)
+    for p1 in POLICIES:
+        for p2 in POLICIES:
+            for m in (2, 4):
+                calls = [_call(1, 1, m, 10, p1), _call(1, 2, 1, 10, p2), _call(3, 3, 1, 10, p1)]
+                out.append((f'two-{p1}-{p2}-m{m}', _doc(50, [_para(2, 1), _para(1, 4, calls)])))
+    # D. footnotes of two page names in one area, area with bottom decorations (the repaired 8db5909 paths)
+    for mb, bb in ((0, 0), (2, 2), (4, 0)):
+        for max_h in ('inf', 25):
+            kids = [_para(1, 1, [_call(0, 2, 5)]),
+                    _para(3, 2, [_call(0, 11, 1), _call(0, 12, 1), _call(0, 13, 1)], page='pb', pt=16)]
+            out.append((f'names-mb{mb}-bb{bb}-max{max_h}', _doc(53, kids, mb=mb, bb=bb, maxH=max_h)))
+            kids = [_para(3, 5, [_call(4, 3, 1, 8), _call(4, 4, 1, 8)], line_h=Fraction(25, 2)),
+                    _para(4, 2, [_call(1, 6, 1, 8)], line_h=Fraction(25, 2), page='pa')]
+            out.append((f'names2-mb{mb}-bb{bb}-max{max_h}', _doc(Fraction(81, 2), kids, mb=mb, bb=bb, maxH=max_h)))
+    # E. footnotes inside boxes with bottom padding/border, cloned or not, avoided breaks, orphans/widows: the paths
+    #    that discard laid-out lines and must un-lay-out their footnotes
+    for clone in (False, True):
+        for pb, bb in ((0, 0), (6, 0), (4, 2)):
+            for policy in ('auto', 'line', 'block'):
+                for inside in ('auto', 'avoid'):
+                    para = _para(1, 6, [_call(1, 1, 1, 10, policy), _call(4, 2, 2, 10, policy)], orphans=2, widows=2)
+                    block = dict(kind='block', id=3, st=pm.default_style(pb=Fraction(pb), bb=Fraction(bb), clone=clone,
+                                                                         brkInside=inside), kids=[para])
+                    out.append((f'deco-c{int(clone)}-pb{pb}-bb{bb}-{policy}-{inside}',
+                                _doc(55, [_para(2, 2), block, _para(4, 2, [_call(0, 3, 1, 10, policy)])])))
+    if not thorough:
+        out = [item for index, item in enumerate(out) if index % 3 == 0]
+    # F. (both tiers) the block model's own page-bottom bookkeeping under a footnote area: the last fragment of a
+    #    paragraph with bottom padding/border that is the first content of its page; an unbreakable (fixed-height)
+    #    block with top padding/border after other content, ending just at the page bottom / the footnote area top
+    for pb, bb in ((6, 0), (13, 2)):
+        for foot in (0, 1):
+            calls = [_call(6, 1, 1, 10)] if foot else []
+            out.append((f'lastfrag-pb{pb}-bb{bb}-f{foot}', _doc(50 + 10 * foot, [_para(1, 9, calls, pb=Fraction(pb),
+                                                                                     bb=Fraction(bb))])))
+    for pt, bt in ((8, 0), (4, 2)):
+        for lines_before in (6, 7):
+            for foot in (0, 1):
+                calls = [_call(1, 1, 1, 10)] if foot else []
+                fixed = dict(kind='block', id=3, st=pm.default_style(height=Fraction(30), pt=Fraction(pt),
+                                                                     bt=Fraction(bt)), kids=[_para(4, 2)])
+                out.append((f'fixed-pt{pt}-bt{bt}-n{lines_before}-f{foot}',
+                            _doc(100 + 10 * foot, [_para(1, lines_before, calls), fixed, _para(5, 2)])))
+    # G. (both tiers) `@page <name> { @footnote { … } }`: footnotes postponed from an unnamed page land in the area of
+    #    a named page type with another style (taller top margin, max-height), and back
+    for mt, max_h in ((6, 'inf'), (0, 15), (4, 25)):
+        for back in (False, True):
+            kids = [_para(1, 3, [_call(2, 1, 2), _call(2, 2, 1)]),
+                    _para(3, 3, [_call(0, 3, 1), _call(2, 4, 1)], page='pb')]
+            if back:
+                kids.append(_para(5, 3, [_call(1, 5, 2)]))
+            doc = _doc(40, kids, mt=2)
+            doc['named'] = {'pb': default_area(mt=Fraction(mt), maxH=max_h if max_h == 'inf' else Fraction(max_h))}
+            out.append((f'named-area-mt{mt}-max{max_h}-back{int(back)}', doc))
+    return out
+
+
 def all_boxes(box):
     out = [box]
     for kid in box['kids']:
@@ -298,6 +421,8 @@ def features(doc):
         tags.add('area-max-height')
     if any(area[k] for k in ('mt', 'mb', 'pt', 'pb', 'bt', 'bb')):
         tags.add('area-decoration')
+    if doc.get('named'):
+        tags.add('named-footnote-areas')
 
     def walk(box):
         for c in box.get('calls', []):
@@ -369,6 +494,15 @@ def shrink(doc, still_fails, budget=500):
                 break
         if changed:
             continue
+        if doc.get('named'):
+            for name in sorted(doc['named']):
+                cand = copy.deepcopy(doc)
+                del cand['named'][name]
+                if attempt(cand):
+                    doc, changed = cand, True
+                    break
+            if changed:
+                continue
         for key, value in default_area().items():
             if doc['area'][key] != value:
                 cand = copy.deepcopy(doc)
